@@ -161,6 +161,15 @@ func run(r *core.Run) int {
 	os.WriteFile(corpusPath, cb, 0o644)
 
 	sizes := map[string]int{"E": r.Pick(120000, 3000000), "F": r.Pick(30000, 600000), "X": r.Pick(20000, 500000), "B": r.Pick(30000, 900000)}
+	if d, _ := strconv.Atoi(os.Getenv("VERIF_C09_DIV")); d > 1 {
+		// development knob: shrink the thorough tier to try the plumbing
+		for k := range sizes {
+			sizes[k] /= d
+		}
+		for i := range fuzzTargets {
+			fuzzTargets[i].execs /= d
+		}
+	}
 	r.Set("inputs_per_part", sizes)
 	r.Set("corpus_envelopes", len(corpus.Envelopes))
 	var chunks []chunk
@@ -210,6 +219,9 @@ func run(r *core.Run) int {
 		r.Count("finding-"+f.kind, 1)
 		r.Violation(f.sig, fmt.Sprintf("%s on input %s#%d (%s): %s", f.kind, f.part, f.idx, trunc(in.Desc, 300), f.what),
 			map[string]any{"Kind": in.Kind, "Desc": in.Desc, "Data": in.Data, "Chain": in.Chain, "Bodies": in.Bodies, "WithST": in.WithST, "Cache": in.Cache, "stack": f.stack})
+	}
+	if !r.Quick() && hangs.Load() < 3 && crashes.Load() < 200 {
+		nativeFuzz(r, work)
 	}
 	// samples: the first inputs of every part, written out
 	for _, part := range []string{"E", "F", "X", "B"} {
@@ -369,6 +381,10 @@ func blocked(dump string) bool {
 }
 
 func replay(r *core.Run, path string) int {
+	var fz struct{ FuzzTarget, CorpusFile, CorpusName string }
+	if err := core.LoadReplay(path, &fz); err == nil && fz.FuzzTarget != "" {
+		return replayFuzz(r, fz.FuzzTarget, fz.CorpusName, fz.CorpusFile)
+	}
 	work := core.WorkDir()
 	os.MkdirAll(work, 0o755)
 	logPath := filepath.Join(work, "c09-replay.log")
@@ -383,5 +399,86 @@ func replay(r *core.Run, path string) int {
 		r.Violation("crash:"+TopLibFrame(res.Output), fmt.Sprintf("worker process died (exit %d): %s", res.ExitCode, line), map[string]any{"replayed": path})
 	}
 	fmt.Printf("replayed %s: panics=%d completed=%v\n", path, len(fs), done)
+	return r.Finish(0)
+}
+
+// --- native coverage-guided fuzzing (thorough tier) -----------------------------------
+
+var fuzzTargets = []struct {
+	name  string
+	execs int
+}{{"FuzzEnvelope", 2000000}, {"FuzzCertFile", 400000}, {"FuzzKeyFile", 300000}, {"FuzzOCSPBody", 400000}, {"FuzzCRLBody", 400000}, {"FuzzCertificate", 400000}}
+
+var failingInput = regexp.MustCompile(`Failing input written to (\S+)`)
+var fuzzExecs = regexp.MustCompile(`execs: (\d+)`)
+
+// nativeFuzz runs `go test -fuzz` (iteration-bounded) for every target in
+// harness/fuzz. The oracle is the engine's: a failing test function (recovered
+// panic) or a dead fuzz worker (process-killing panic, runaway) is a crasher.
+func nativeFuzz(r *core.Run, work string) {
+	hdir := filepath.Join(core.Root, "harness")
+	total := 0
+	for _, t := range fuzzTargets {
+		out := filepath.Join(work, "fuzz-"+t.name+".out")
+		res := core.RunChildDir(hdir, "go", []string{"test", "-tags", "verif", "-run", "^$", "-fuzz", "^" + t.name + "$", "-fuzztime", fmt.Sprintf("%dx", t.execs), "./fuzz/"},
+			[]string{"GOFLAGS=-mod=mod", "GOPROXY=off", "GOSUMDB=off", "GOTOOLCHAIN=local"}, out, 40*time.Minute)
+		n := 0
+		if ms := fuzzExecs.FindAllStringSubmatch(res.Output, -1); len(ms) > 0 {
+			n, _ = strconv.Atoi(ms[len(ms)-1][1])
+		}
+		total += n
+		r.Eval(n)
+		r.Count("fuzz-execs-"+t.name, n)
+		switch {
+		case res.TimedOut:
+			r.Inconclusive("native fuzzing of " + t.name + " exceeded its watchdog")
+		case res.ExitCode == 0:
+		default:
+			m := failingInput.FindStringSubmatch(res.Output)
+			if m == nil {
+				if strings.Contains(res.Output, "[build failed]") || strings.Contains(res.Output, "cannot find") {
+					r.Inconclusive("native fuzzing of " + t.name + " could not be built / started: " + trunc(res.Output, 300))
+					continue
+				}
+				r.Inconclusive("native fuzzing of " + t.name + " failed without a crasher file: " + trunc(res.Output, 300))
+				continue
+			}
+			crasher := filepath.Join(hdir, "fuzz", m[1])
+			data, _ := os.ReadFile(crasher)
+			os.RemoveAll(filepath.Join(hdir, "fuzz", "testdata")) // the witness goes into the replay file, not into the tree
+			r.Violation("fuzz:"+t.name+":"+TopLibFrame(res.Output), fmt.Sprintf("native fuzzing of %s found a crasher: %s", t.name, trunc(firstLine(res.Output, "panic"), 200)),
+				map[string]any{"FuzzTarget": t.name, "CorpusFile": string(data), "CorpusName": filepath.Base(crasher), "output": trunc(res.Output, 6000)})
+		}
+	}
+	r.Set("native_fuzz_execs", total)
+	r.Count("fuzz-targets-run", len(fuzzTargets))
+}
+
+func firstLine(s, needle string) string {
+	for _, l := range strings.Split(s, "\n") {
+		if strings.Contains(l, needle) {
+			return strings.TrimSpace(l)
+		}
+	}
+	return ""
+}
+
+// replayFuzz restores a crasher into the fuzz package's seed corpus, runs the
+// target on it and removes it again.
+func replayFuzz(r *core.Run, target, name, content string) int {
+	hdir := filepath.Join(core.Root, "harness")
+	dir := filepath.Join(hdir, "fuzz", "testdata", "fuzz", target)
+	os.MkdirAll(dir, 0o755)
+	os.WriteFile(filepath.Join(dir, name), []byte(content), 0o644)
+	defer os.RemoveAll(filepath.Join(hdir, "fuzz", "testdata"))
+	work := core.WorkDir()
+	os.MkdirAll(work, 0o755)
+	res := core.RunChildDir(hdir, "go", []string{"test", "-tags", "verif", "-run", "^" + target + "$/" + name, "./fuzz/"},
+		[]string{"GOFLAGS=-mod=mod", "GOPROXY=off", "GOSUMDB=off", "GOTOOLCHAIN=local"}, filepath.Join(work, "fuzz-replay.out"), 10*time.Minute)
+	r.Eval(1)
+	fmt.Println(trunc(res.Output, 3000))
+	if res.ExitCode != 0 {
+		r.Violation("fuzz:"+target+":"+TopLibFrame(res.Output), "the crasher still fails: "+trunc(firstLine(res.Output, "panic"), 200), map[string]any{"FuzzTarget": target})
+	}
 	return r.Finish(0)
 }
